@@ -5,8 +5,11 @@ import (
 	"context"
 	"encoding/binary"
 	"fmt"
+	"github.com/oneconcern/datamon/pkg/storage"
+	"io"
 	"sort"
 	"strings"
+	"sync"
 
 	jfuse "github.com/jacobsa/fuse"
 	"github.com/jacobsa/fuse/fuseops"
@@ -22,7 +25,64 @@ type kernel struct {
 	inode   map[string]fuseops.InodeID // dentry cache
 	pathOf  map[fuseops.InodeID]string // inverse, to detect two paths sharing an inode
 	handles fuseops.HandleID
+	brk     *breaker // the mount's blob store wrapper (nil: none)
 }
+
+// errReadFailed wraps an error answered by ReadFile (as opposed to wrong data)
+type errReadFailed struct{ err error }
+
+func (e errReadFailed) Error() string { return e.err.Error() }
+
+// breaker wraps the blob store of a mount: once armed, the next blob download delivers half of the blob and then
+// breaks with io.ErrUnexpectedEOF, like a connection cut in the middle of a transfer
+type breaker struct {
+	storage.Store
+	mu    sync.Mutex
+	armed bool
+	hits  int
+}
+
+func (b *breaker) arm(on bool) {
+	b.mu.Lock()
+	b.armed = on
+	b.mu.Unlock()
+}
+
+func (b *breaker) Get(c context.Context, key string) (io.ReadCloser, error) {
+	r, err := b.Store.Get(c, key)
+	if err != nil {
+		return r, err
+	}
+	b.mu.Lock()
+	hit := b.armed
+	if hit {
+		b.armed = false
+		b.hits++
+	}
+	b.mu.Unlock()
+	if !hit {
+		return r, nil
+	}
+	data, _ := io.ReadAll(r)
+	_ = r.Close()
+	return &brokenBody{data: data[:len(data)/2]}, nil
+}
+
+type brokenBody struct {
+	data []byte
+	pos  int
+}
+
+func (b *brokenBody) Read(p []byte) (int, error) {
+	if b.pos >= len(b.data) {
+		return 0, io.ErrUnexpectedEOF
+	}
+	n := copy(p, b.data[b.pos:])
+	b.pos += n
+	return n, nil
+}
+
+func (b *brokenBody) Close() error { return nil }
 
 func newKernel(fs fuseutil.FileSystem, m *modelT) *kernel {
 	k := &kernel{fs: fs, m: m, inode: map[string]fuseops.InodeID{"": fuseops.RootInodeID}, pathOf: map[fuseops.InodeID]string{fuseops.RootInodeID: ""}}
@@ -298,7 +358,7 @@ func (k *kernel) read(path string, off int64, length int, L int, out *outcome) e
 	}
 	op := &fuseops.ReadFileOp{Inode: ino, Handle: oop.Handle, Offset: off, Size: int64(length), Dst: dst}
 	if err := k.fs.ReadFile(ctx, op); err != nil {
-		return fmt.Errorf("ReadFile(%q, off=%d, len=%d) on %d bytes = %v", path, off, length, len(content), err)
+		return errReadFailed{fmt.Errorf("ReadFile(%q, off=%d, len=%d) on %d bytes = %v", path, off, length, len(content), err)}
 	}
 	var got []byte
 	if op.Data != nil {
@@ -383,6 +443,24 @@ func (k *kernel) exec(op opT, L int, out *outcome) error {
 		return k.readdir(op.Path, op.Bufs, op.Resume, out)
 	case "read":
 		return k.read(op.Path, op.Off, op.Len, L, out)
+	case "breakread":
+		// the next blob download of the mount breaks half-way: this read may fail, but if it succeeds its bytes are
+		// right - and every later read is (the broken transfer must not have been cached as a complete leaf)
+		if k.brk == nil {
+			return k.read(op.Path, op.Off, op.Len, L, out)
+		}
+		before := k.brk.hits
+		k.brk.arm(true)
+		err := k.read(op.Path, op.Off, op.Len, L, out)
+		k.brk.arm(false)
+		if k.brk.hits > before {
+			out.broken++
+			if _, failed := err.(errReadFailed); failed {
+				out.brokenFailed++
+				return nil
+			}
+		}
+		return err
 	}
 	return fmt.Errorf("harness: unknown op %q", op.Kind)
 }
